@@ -1475,9 +1475,21 @@ class World(object):
             b = self.ref(op['b'], lambda o: np.asarray(o.val).ndim > 0)
             st.srcs.append(b)
         kwargs = {}
+        mkw = {}       # keywords handed to the METHOD form (x.sum(out=r), x.max(out_like=t, sizing='same'))
         reg = None
         if route == 'method':
             reg = ao.config.op_out
+            if op.get('kw_on_method'):
+                if op.get('out') is not None:
+                    reg = self.obj(self.ref(op['out']))
+                    mkw['out'] = reg
+                elif op.get('out_like') is not None:
+                    mkw['out_like'] = self.obj(self.ref(op['out_like']))     # (config.op_out, if set, still wins)
+                if op.get('sizing'):
+                    mkw['sizing'] = op['sizing']
+                if op.get('method'):
+                    mkw['method'] = op['method']
+                self.bump('reduce_method_with_keywords')
         elif route == 'np':
             reg = ao.config.array_op_out
         else:
@@ -1538,7 +1550,7 @@ class World(object):
                'diagonal': np.diagonal, 'trace': np.trace, 'clip': np.clip, 'dot': np.dot}[f]
         if f == 'dot':
             bo = self.obj(b)
-            x = ao.dot(bo) if route == 'method' else np.dot(ao, bo) if route == 'np' else fxf.dot(ao, bo, **kwargs)
+            x = ao.dot(bo, **mkw) if route == 'method' else np.dot(ao, bo) if route == 'np' else fxf.dot(ao, bo, **kwargs)
         elif f == 'clip':
             lo_, hi_ = op.get('lo', 0), op.get('hi', 1)
             # bounds handed over as caller-owned arrays / lists: inputs like any other (C20)
@@ -1553,15 +1565,15 @@ class World(object):
                             lo_ = cobj
                         else:
                             hi_ = cobj
-            x = (ao.clip(lo_, hi_) if route == 'method' else np.clip(ao, lo_, hi_) if route == 'np'
+            x = (ao.clip(lo_, hi_, **mkw) if route == 'method' else np.clip(ao, lo_, hi_) if route == 'np'
                  else fxf.clip(ao, lo_, hi_, **kwargs))
         elif f in ('transpose', 'diagonal', 'trace'):
-            x = (getattr(ao, f)() if route == 'method' else npf(ao) if route == 'np'
+            x = (getattr(ao, f)(**mkw) if route == 'method' else npf(ao) if route == 'np'
                  else getattr(fxf, f)(ao, **kwargs))
         else:
             fname = {'max': 'fxp_max', 'min': 'fxp_min'}.get(f, f)
             if route == 'method':
-                x = getattr(ao, f)(axis=axis, **extra_kw)
+                x = getattr(ao, f)(axis=axis, **dict(mkw, **extra_kw))
             elif route == 'np':
                 x = npf(ao, axis=axis, **extra_kw)
             elif f == 'sum' and op.get('legacy'):
